@@ -16,6 +16,8 @@ pub struct Campaign<'a> {
     pub seed: u64,
     /// initial corpus
     pub seeds: Vec<Vec<u8>>,
+    /// wall-clock cap in seconds (reaching it ends the campaign early; never a violation)
+    pub max_time: u64,
 }
 
 fn fuzz_dir() -> PathBuf {
@@ -30,6 +32,24 @@ fn cargo_fuzz(args: &[&str]) -> Command {
     c.env("CARGO_NET_OFFLINE", "true");
     c.env("VERIF_ROOT", verif_root());
     c
+}
+
+/// The generic target: libFuzzer's bytes are fed to the property's proptest strategy as its random stream
+/// (proptest's pass-through RNG), the generated case runs through the same interpreter and oracle.
+pub fn prop_bytes(id: &str, seed: u64, ev: &mut ExtraEvidence) -> Vec<Violation> {
+    run(
+        &Campaign {
+            property: id,
+            target: "prop_bytes",
+            asan: false,
+            runs: 100_000,
+            max_len: 4096,
+            seed,
+            seeds: random_seeds(seed, 24, 4096),
+            max_time: 150,
+        },
+        ev,
+    )
 }
 
 /// Runs one campaign; returns violations (with replay files written by the target).
@@ -53,7 +73,7 @@ pub fn run(c: &Campaign, ev: &mut ExtraEvidence) -> Vec<Violation> {
             return Vec::new();
         }
     }
-    let corpus = fuzz_dir().join("corpus").join(format!("{}-{}", c.target, std::process::id()));
+    let corpus = fuzz_dir().join("corpus").join(format!("{}-{}-{}", c.target, c.property, std::process::id()));
     let _ = std::fs::remove_dir_all(&corpus);
     std::fs::create_dir_all(&corpus).expect("corpus dir");
     for (i, s) in c.seeds.iter().enumerate() {
@@ -66,10 +86,11 @@ pub fn run(c: &Campaign, ev: &mut ExtraEvidence) -> Vec<Violation> {
     let seed = format!("-seed={}", (c.seed % 4_000_000_000) + 1);
     let maxlen = format!("-max_len={}", c.max_len);
     let prefix = format!("-artifact_prefix={}/", artifacts.display());
+    let maxtime = format!("-max_total_time={}", c.max_time);
     let mut run_args = vec!["run", "--fuzz-dir", "."];
     run_args.extend_from_slice(san);
-    run_args.extend_from_slice(&[c.target, &corpus_s, "--", &runs, &seed, "-len_control=0", &maxlen, &prefix, "-print_final_stats=1", "-max_total_time=1500"]);
-    let out = cargo_fuzz(&run_args).output();
+    run_args.extend_from_slice(&[c.target, &corpus_s, "--", &runs, &seed, "-len_control=0", &maxlen, &prefix, "-print_final_stats=1", &maxtime]);
+    let out = cargo_fuzz(&run_args).env("VERIF_FUZZ_PROP", c.property).output();
     let _ = std::fs::remove_dir_all(&corpus);
     let Ok(out) = out else {
         ev.fields.insert(key, json!({"status": "not run: could not start the fuzzer"}));
